@@ -191,6 +191,11 @@ func checkC04(ci any, info *CaseInfo) string {
 	if !isASCIIBytes(c.Text) {
 		info.Class("multibyte")
 	}
+	if o.Err == nil {
+		if m := rec.RetainedIntact(); m != "" {
+			return fmt.Sprintf("json parser on %q: %s", trunc(c.Text), m)
+		}
+	}
 	if o.Err != nil {
 		if mayReject {
 			info.Class("rejected_out_of_range_number")
